@@ -277,7 +277,25 @@ fn print_pfamily(dir: &Path, nfiles: usize) -> Vec<PathBuf> {
             }
             s.push_str("}\n");
         }
-        s.push_str(&format!("service PSvc{} {{\n  rpc Call(Outer{}x0) returns (Outer{}x1);\n  rpc Other(Outer{}x2) returns (Outer{}x0);\n}}\n", i, i, i, i, i));
+        // many top-level items with gaps between their ids (enum variants take ids too), all reachable from
+        // the service: which items `ignore_unused` keeps is found by a walk from the entry files' services
+        let mut bag = format!("message Bag{} {{\n", i);
+        for e in 0..10 {
+            s.push_str(&format!("enum Tone{}x{} {{\n", i, e));
+            for v in 0..9 {
+                s.push_str(&format!("  TONE_{}_{}_{} = {};\n", i, e, v, v));
+            }
+            s.push_str("}\n");
+            bag.push_str(&format!("  Tone{}x{} t{} = {};\n", i, e, e, e + 1));
+        }
+        for m in 0..30 {
+            s.push_str(&format!("message Plain{}x{} {{ int32 a = 1; string b = 2; Tone{}x{} t = 3; }}\n", i, m, i, m % 10));
+            bag.push_str(&format!("  Plain{}x{} p{} = {};\n", i, m, m, m + 20));
+        }
+        bag.push_str("}\n");
+        s.push_str(&bag);
+        s.push_str(&format!("message BagHolder{} {{ Bag{} bag = 1; }}\n", i, i));
+        s.push_str(&format!("service PSvc{} {{\n  rpc Bags(BagHolder{}) returns (Bag{});\n  rpc Call(Outer{}x0) returns (Outer{}x1);\n  rpc Other(Outer{}x2) returns (Outer{}x0);\n}}\n", i, i, i, i, i, i, i));
         let p = dir.join(format!("pfam{}.proto", i));
         std::fs::write(&p, s).unwrap();
         entries.push(p);
